@@ -12,10 +12,11 @@ PINS = {
     'IntegrityProtectedSKEDataV1.encrypt': '4df5ab8ae79378603272ea3f',
     'IntegrityProtectedSKEDataV1.decrypt': 'c1eef8049b8ffe1ad67ce1bf',
     'IntegrityProtectedSKEDataV1.parse': '7313873e82d7a82875d76086',
-    'PKESessionKeyV3.decrypt_sk': 'c8ce9e5a48f5e27ec01ba43d',
+    'PKESessionKeyV3.decrypt_sk': 'e45ee4711f182205928682ef',
     'PKESessionKeyV3.encrypt_sk': '170b82b3f5926811069a2a6f',
     'PKESessionKeyV3.parse': '934538c88d9ba6c0df7b723b',
     'PKESessionKeyV3.__bytearray__': 'f7e601ce00c4826100bc8b34',
+    'PKESessionKeyV3.pkalg_int': '2e46d0bada7377f499bde83b',
     'SKESessionKeyV4.decrypt_sk': '1bdcb446948494be46277a26',
     'SKESessionKeyV4.encrypt_sk': 'b931304baacff28793bd0cfc',
     'SKESessionKeyV4.parse': 'b693f5bedd43ab24ef629ffb',
@@ -289,7 +290,7 @@ def impl_struct(e):
             elif n == 'ElGCipherText':
                 c = 'G:' + hn(int(ct.gk_mod_p)) + ':' + hn(int(ct.myk_mod_p))
             else:
-                c = 'N'
+                c = 'O:' + hx(bytes(sk._opaque_ct))     # no ciphertext class: the rest of the packet as received
             out.append('PK:' + sk.encrypter.lower() + ':' + hn(int(sk.pkalg)) + ':' + c)
         elif isinstance(sk, SKESessionKeyV4):
             out.append(':'.join(['SK', hn(int(sk.symalg)), hn(int(sk.s2k.specifier)), hn(int(sk.s2k.halg)), hx(bytes(sk.s2k.salt)),
@@ -420,7 +421,7 @@ class World:
 
     # ---- implementation side
     def enc_kwargs(self, name):
-        return {'user': 'Enc User'} if name == 'rsa3072' else {}
+        return {'user': 'Enc User'} if name in ('rsa3072', ODD_RSA) else {}
 
     def impl_encrypt(self, m, recips, alg, sk):
         """recips: list of ('P', passphrase:str, hash id, coded count) | ('K', key name); one API call per recipient"""
@@ -498,6 +499,7 @@ def run(ctx):
         sessionkey_length_suite(ctx, w)
         ecdh_point_suite(ctx, w)
         encryptor_suite(ctx, w)
+        rsa_odd_modulus_suite(ctx, w)
         ctx.notes.append('oracle calls: %s' % dict(sorted(w.orc.calls.items())))
     finally:
         w.close()
@@ -656,8 +658,8 @@ def unit_suites(ctx, w):
 
     # ---- RSA ciphertext left padding: decrypt_sk must hand the primitive exactly modulus-size octets with the value unchanged
     for i in range(ctx.n(60, 400)):
-        bits = rng.choice([1024, 2048, 3072])
-        k = bits // 8
+        bits = rng.choice([1024, 2048, 3072, 2047, 2050, 1023, 3073])
+        k = (bits + 7) // 8        # the length of the modulus in octets, also when it is no multiple of 8 bits long
         lead = rng.choice([0, 0, 1, 2, 3, k - 1, k])
         v = int.from_bytes(bytes(lead) + bytes(rng.randrange(1, 256) for _ in range(k - lead)), 'big') if lead < k else 0
         stub = _StubRSA(bytes([9]) + bytes(32) + b'\x00\x00', bits)
@@ -1042,6 +1044,102 @@ def sessionkey_length_suite(ctx, w):
             ctx.fail('sessionkey-length', 'independent decryptor disagrees on a passphrase message with a caller-supplied session key', dict(case, blob=raw.hex(), model=md[:80]))
 
 
+ODD_RSA = 'rsa2050'     # pool key whose modulus is NOT a multiple of 8 bits long (2050 bits = 257 octets, the top octet holds two bits)
+
+
+def add_odd_rsa(ctx, w):
+    """make the odd-modulus RSA pool key a recipient (a user id grants its PRIMARY key encryption usage) and register it with the
+    primitive oracle; only the suite below uses it, so it is added after the other suites have drawn their recipients"""
+    if ODD_RSA in w.keys:
+        return ODD_RSA
+    try:
+        k = keypool.get(ODD_RSA)
+        with warnings.catch_warnings():
+            warnings.simplefilter('ignore')
+            u = w.pgpy.PGPUID.new('Enc User', email='enc@example.com')
+            k.add_uid(u, usage={w.F.Sign, w.F.Certify, w.F.EncryptCommunications, w.F.EncryptStorage}, hashes=[w.H.SHA256],
+                      ciphers=[w.S.AES256, w.S.AES128], compression=[w.Z.ZLIB, w.Z.Uncompressed], created=keypool.T0)
+    except Exception as ex:
+        ctx.skipped.append('key %s unavailable: %s' % (ODD_RSA, type(ex).__name__))
+        return None
+    w.keys[ODD_RSA] = k
+    w.orc.register(k)
+    return ODD_RSA
+
+
+def rsa_odd_modulus_suite(ctx, w):
+    """an RSA recipient whose modulus is no multiple of 8 bits long: the ciphertext is (bits + 7) // 8 octets, and when its first
+    octet is zero the MPI in the packet is an octet shorter -- decrypt_sk has to pad it back to the modulus length (it padded to
+    bits // 8, one octet short, and such messages could not be decrypted).  Messages are encrypted until that short form has
+    been met a few times (about one in three for this key; capped); every short one and a few others go through PGPy's decrypt and
+    through the independent decryptor.  The other direction: the model encrypts (RSA through the oracle), PGPy decrypts"""
+    pgpy, d, rng = w.pgpy, w.d, ctx.rng
+    kn = add_odd_rsa(ctx, w)
+    if kn is None:
+        return
+    k = w.keys[kn]
+    bits = int(k._key.keymaterial.n).bit_length()
+    width = (bits + 7) // 8
+    if bits % 8 == 0:
+        ctx.skipped.append('pool key %s has a modulus of a multiple of 8 bits' % kn)
+        return
+    with warnings.catch_warnings():
+        warnings.simplefilter('ignore')
+        m = pgpy.PGPMessage.new(b'odd modulus', compression=w.Z.Uncompressed)
+    inner = bytes(m.__bytes__())
+    want = canon_plain(m)
+    r = ('K', kn)
+    need, cap = ctx.n(2, 10), ctx.n(80, 400)
+    short = others = 0
+    for i in range(cap):
+        if short >= need:
+            break
+        e = w.impl_encrypt(m, [r], 7 if i % 2 else 9, None)
+        raw = bytes(e.__bytes__())
+        clen = (int(e._sessionkeys[0].ct.me_mod_n).bit_length() + 7) // 8
+        is_short = clen < width
+        if not is_short and others >= 3:
+            continue
+        short += is_short; others += not is_short
+        case = {'op': 'rsa_odd', 'bits': bits, 'ciphertext_octets': clen, 'blob': raw.hex(), 'want': want}
+        ctx.case('rsa-odd-modulus', (i, raw), sample={'bits': bits, 'modulus_octets': width, 'ciphertext_octets': clen})
+        o = w.impl_decrypt(raw, r)
+        if o != ('ok', want):
+            ctx.fail('rsa-odd-modulus', 'a message to an RSA key whose modulus is no multiple of 8 bits long does not decrypt (ciphertext of %d octets, modulus of %d)' % (clen, width),
+                     dict(case, impl=repr(o)[:200]))
+        mo = w.model_decrypt(raw, r)
+        if not (mo.startswith('ok ') and unhx(mo[3:]) == inner):
+            ctx.fail('rsa-odd-modulus', 'independent decryptor and a message to an RSA key with an odd modulus length: ' + mo[:60], case)
+    ctx.dist['rsa-odd-modulus:short-ciphertext'] = short
+    if short < need:
+        ctx.notes.append('rsa-odd-modulus: only %d ciphertext(s) with a leading zero octet met in %d encryptions' % (short, cap))
+    # the other direction
+    mshort = mothers = 0
+    for i in range(ctx.n(60, 300)):
+        if mshort >= ctx.n(2, 8):
+            break
+        sk = bytes(rng.randrange(256) for _ in range(KEYLEN[7]))
+        mo = d.call('enc_msg', hn(7), hx(sk), hx(bytes(rng.randrange(256) for _ in range(BLOCK[7]))), hx(inner), 'K,' + keydesc1(k))
+        case = {'op': 'rsa_odd', 'bits': bits, 'want': want, 'direction': 'model encrypts'}
+        if not mo.startswith('ok '):
+            ctx.fail('rsa-odd-modulus', 'model encryptor failed: ' + mo[:80], case)
+            continue
+        raw = unhx(mo[3:])
+        case['blob'] = raw.hex()
+        with warnings.catch_warnings():
+            warnings.simplefilter('ignore')
+            po = outcome(lambda: (int(pgpy.PGPMessage.from_blob(raw)._sessionkeys[0].ct.me_mod_n).bit_length() + 7) // 8)
+        is_short = po[0] == 'ok' and po[1] < width
+        if not is_short and mothers >= 3:
+            continue
+        mshort += is_short; mothers += not is_short
+        ctx.case('rsa-odd-modulus', ('enc', i, raw), sample={'bits': bits, 'direction': 'model encrypts', 'ciphertext_octets': po[1] if po[0] == 'ok' else None})
+        o = w.impl_decrypt(raw, r)
+        if o != ('ok', want):
+            ctx.fail('rsa-odd-modulus', 'PGPy does not decrypt a well-formed message to an RSA key whose modulus is no multiple of 8 bits long', dict(case, impl=repr(o)[:200]))
+    ctx.dist['rsa-odd-modulus:short-ciphertext-from-model'] = mshort
+
+
 def regressions(ctx, w):
     """witnesses of the two repaired C03 defects (known_findings.json kind=fixed), re-run on every check"""
     pgpy = w.pgpy
@@ -1098,7 +1196,7 @@ def enc_target(w, name):
     k = w.keys[name]
     F = w.F
     want = {F.EncryptCommunications, F.EncryptStorage}
-    if name == 'rsa3072':
+    if name in ('rsa3072', ODD_RSA):
         return k
     for c in [k] + list(k.subkeys.values()):
         try:
@@ -1189,6 +1287,21 @@ def encryptor_suite(ctx, w):
             if rex != ('ok', raw):
                 ctx.fail('independent-encryptor', 'a message with a session key packet of an unknown algorithm is not exported as it was read',
                          dict(case, blob=raw.hex() if len(raw) < 6000 else None, impl=repr(rex)[:200]))
+            # the same through the model: its parser keeps the packet (opaque octets) where PGPy does, writes it back, and the
+            # other recipients decrypt through it
+            case_x = dict(case, blob=raw.hex() if len(raw) < 6000 else None)
+            with warnings.catch_warnings():
+                warnings.simplefilter('ignore')
+                po = outcome(lambda: impl_struct(pgpy.PGPMessage.from_blob(raw)))
+            ctx.expect_eq('independent-encryptor', 'packet structure of a message with an unknown-algorithm session key packet differs from the model parser',
+                          case_x, ('ok ' + po[1]) if po[0] == 'ok' else ('raise ' + po[1]), d.call('msg_parse', hx(raw)))
+            ctx.expect_eq('independent-encryptor', 'model re-emission of a message with an unknown-algorithm session key packet differs from the octets read',
+                          case_x, 'ok ' + hx(raw), d.call('msg_reemit', hx(raw)))
+            for r in recips:
+                md = w.model_decrypt(raw, r)
+                if not (md.startswith('ok ') and unhx(md[3:]) == inner):
+                    ctx.fail('independent-encryptor', 'the model does not decrypt past a session key packet of an unknown algorithm: ' + md[:60],
+                             dict(case_x, recipient=list(r)))
         if i % 5 == 1:
             # the sender STREAMS the encrypted data packet (RFC 4880 4.2.2.4): partial body lengths, the last part closed by a one-,
             # two- or five-octet length according to what is left
@@ -1339,7 +1452,11 @@ def replay(ctx, case):
             bits, v = case['bits'], int(case['v'], 16)
             stub = _StubRSA(bytes([9]) + bytes(34), bits); p = PKESessionKeyV3(); p.pkalg = 1; p.ct.me_mod_n = MPI(v)
             outcome(p.decrypt_sk, stub)
-            return stub.seen is None or len(stub.seen) != bits // 8 or int.from_bytes(stub.seen, 'big') != v
+            return stub.seen is None or len(stub.seen) != (bits + 7) // 8 or int.from_bytes(stub.seen, 'big') != v
+        if op == 'rsa_odd':
+            if add_odd_rsa(ctx, w) is None or not case.get('blob'):
+                return True
+            return w.impl_decrypt(bytes.fromhex(case['blob']), ('K', ODD_RSA)) != ('ok', case['want'])
         if op == 'kdf':
             k = w.keys[case['key']]
             for sk in [k] + list(k.subkeys.values()):
